@@ -58,7 +58,9 @@ func reverse(s []byte) []byte {
 	cursorOut := len(s)
 	output := make([]byte, len(s))
 	for i := 0; i < len(inputRunes); {
-		wid := utf8.RuneLen(inputRunes[i])
+		// width of the rune as it is in s: an invalid byte decodes to
+		// utf8.RuneError (RuneLen 3) but occupies a single byte
+		_, wid := utf8.DecodeRune(s[cursorIn:])
 		i++
 		for i < len(inputRunes) {
 			r := inputRunes[i]
